@@ -430,7 +430,7 @@ type c11Result struct {
 const (
 	c11NoNoticePause = 100 * time.Millisecond
 	c11ArrivalWait   = 500 * time.Millisecond
-	c11HangAfter     = 30 * time.Second
+	c11HangAfter     = 60 * time.Second // >10^5 x the normal duration of a case; only reached when Put spins or deadlocks
 )
 
 func c11Run(sc *c11Scenario) *c11Result {
